@@ -165,7 +165,10 @@ func runC17MultiOrient(c *Ctx) {
 					continue
 				}
 				models++
-				it := &k4interp{p: c.P, m: m, mem: map[string]k4val{}}
+				it := &k4interp{p: c.P, m: m, mem: map[string]k4val{}, inline: func(g *ssa.Function) bool {
+					n := FuncName(g)
+					return n == "geom.(MultiPolygon).NumPolygons" || n == "geom.(MultiPolygon).PolygonN"
+				}}
 				for i := 0; i < n; i++ {
 					it.mem[fmt.Sprintf("P[%d]", i)] = k4val{kind: 3, s: fmt.Sprintf("P[%d]", i)}
 				}
